@@ -39,7 +39,7 @@ pub open spec fn object_loop2(o: &crate::nitrogql_ast::type_system::ObjectTypeDe
 //@   loops 2
 //@   loop 0 iter_name it
 //@   loop 0 invariant [C05.ts_object.fields.iter] it.seq().len() == object.fields@.len() && 0 <= it.index@ <= it.seq().len() && (forall|i: int| 0 <= i < it.seq().len() ==> *it.seq()[i] == object.fields@[i])
-//@   loop 0 invariant [C05.ts_object.fields.frame] crate::extends_errs(old(result)@, result@)
+//@   loop 0 invariant [C05.ts_object.fields.frame] crate::extends_errs(old(result)@, result@) && crate::schema_wf(&definitions.type_system)
 //@   loop 0 invariant [C05.ts_object.fields.seen] crate::seen_ok(crate::names_view(seen_fields), crate::field_names(object.fields@), it.index@ as int)
 //@   loop 0 invariant [C05.ts_object.fields.exact] (result@.len() == old(result)@.len()) <==> crate::object_loop1(object, definitions, it.index@ as int)
 //@   hint before 0 "let mut seen_fields = vec![];" :: [C05.ts_object.h_init] proof { crate::axiom_str_obeys(); crate::lemma_seen_init(crate::field_names(object.fields@)); }
@@ -51,9 +51,9 @@ pub open spec fn object_loop2(o: &crate::nitrogql_ast::type_system::ObjectTypeDe
 //@   loop 1 iter_name it2
 //@   loop 1 for_continue
 //@   loop 1 invariant [C05.ts_object.impl.iter] it2.seq().len() == object.implements@.len() && 0 <= it2.index@ <= it2.seq().len() && (forall|i: int| 0 <= i < it2.seq().len() ==> *it2.seq()[i] == object.implements@[i])
-//@   loop 1 invariant [C05.ts_object.impl.frame] crate::extends_errs(old(result)@, result@)
+//@   loop 1 invariant [C05.ts_object.impl.frame] crate::extends_errs(old(result)@, result@) && crate::schema_wf(&definitions.type_system)
 //@   loop 1 invariant [C05.ts_object.impl.exact] (result@.len() == old(result)@.len()) <==> crate::object_loop2(object, definitions, it2.index@ as int)
-//@   loop 1 body_invariant [C05.ts_object.impl.body_pre] it2.seq().len() == object.implements@.len() && 0 <= it2.index@ < it2.seq().len() && *interface == object.implements@[it2.index@ as int] && crate::extends_errs(old(result)@, result@) && ((result@.len() == old(result)@.len()) <==> crate::object_loop2(object, definitions, it2.index@ as int))
+//@   loop 1 body_invariant [C05.ts_object.impl.body_pre] it2.seq().len() == object.implements@.len() && 0 <= it2.index@ < it2.seq().len() && *interface == object.implements@[it2.index@ as int] && crate::extends_errs(old(result)@, result@) && ((result@.len() == old(result)@.len()) <==> crate::object_loop2(object, definitions, it2.index@ as int)) && crate::schema_wf(&definitions.type_system)
 //@   loop 1 body_ensures [C05.ts_object.impl.body_frame] crate::extends_errs(old(result)@, result@)
 //@   loop 1 body_ensures [C05.ts_object.impl.body_step] (result@.len() == old(result)@.len()) <==> crate::object_loop2(object, definitions, it2.index@ as int + 1)
 //@   loop 1 body_prefix broadcast use crate::str_key_model; proof { crate::axiom_str_obeys(); }
@@ -76,7 +76,7 @@ pub open spec fn iface_loop2(o: &crate::nitrogql_ast::type_system::InterfaceType
 //@   loops 2
 //@   loop 0 iter_name it
 //@   loop 0 invariant [C05.ts_interface.fields.iter] it.seq().len() == interface.fields@.len() && 0 <= it.index@ <= it.seq().len() && (forall|i: int| 0 <= i < it.seq().len() ==> *it.seq()[i] == interface.fields@[i])
-//@   loop 0 invariant [C05.ts_interface.fields.frame] crate::extends_errs(old(result)@, result@)
+//@   loop 0 invariant [C05.ts_interface.fields.frame] crate::extends_errs(old(result)@, result@) && crate::schema_wf(&definitions.type_system)
 //@   loop 0 invariant [C05.ts_interface.fields.seen] crate::seen_ok(crate::names_view(seen_fields), crate::field_names(interface.fields@), it.index@ as int)
 //@   loop 0 invariant [C05.ts_interface.fields.exact] (result@.len() == old(result)@.len()) <==> crate::iface_loop1(interface, definitions, it.index@ as int)
 //@   hint before 0 "let mut seen_fields = vec![];" :: [C05.ts_interface.h_init] proof { crate::axiom_str_obeys(); crate::lemma_seen_init(crate::field_names(interface.fields@)); }
@@ -88,9 +88,9 @@ pub open spec fn iface_loop2(o: &crate::nitrogql_ast::type_system::InterfaceType
 //@   loop 1 iter_name it2
 //@   loop 1 for_continue
 //@   loop 1 invariant [C05.ts_interface.impl.iter] it2.seq().len() == interface.implements@.len() && 0 <= it2.index@ <= it2.seq().len() && (forall|i: int| 0 <= i < it2.seq().len() ==> *it2.seq()[i] == interface.implements@[i])
-//@   loop 1 invariant [C05.ts_interface.impl.frame] crate::extends_errs(old(result)@, result@)
+//@   loop 1 invariant [C05.ts_interface.impl.frame] crate::extends_errs(old(result)@, result@) && crate::schema_wf(&definitions.type_system)
 //@   loop 1 invariant [C05.ts_interface.impl.exact] (result@.len() == old(result)@.len()) <==> crate::iface_loop2(interface, definitions, it2.index@ as int)
-//@   loop 1 body_invariant [C05.ts_interface.impl.body_pre] it2.seq().len() == interface.implements@.len() && 0 <= it2.index@ < it2.seq().len() && *other_interface == interface.implements@[it2.index@ as int] && crate::extends_errs(old(result)@, result@) && ((result@.len() == old(result)@.len()) <==> crate::iface_loop2(interface, definitions, it2.index@ as int))
+//@   loop 1 body_invariant [C05.ts_interface.impl.body_pre] it2.seq().len() == interface.implements@.len() && 0 <= it2.index@ < it2.seq().len() && *other_interface == interface.implements@[it2.index@ as int] && crate::extends_errs(old(result)@, result@) && ((result@.len() == old(result)@.len()) <==> crate::iface_loop2(interface, definitions, it2.index@ as int)) && crate::schema_wf(&definitions.type_system)
 //@   loop 1 body_ensures [C05.ts_interface.impl.body_frame] crate::extends_errs(old(result)@, result@)
 //@   loop 1 body_ensures [C05.ts_interface.impl.body_step] (result@.len() == old(result)@.len()) <==> crate::iface_loop2(interface, definitions, it2.index@ as int + 1)
 //@   loop 1 body_prefix broadcast use crate::str_key_model, crate::axiom_str_eq; proof { crate::axiom_str_obeys(); }
